@@ -141,6 +141,9 @@ func (g *structGen) keyExpr(t types.Type, path string) string {
 	if b, ok := t.Underlying().(*types.Basic); ok && b.Kind() == types.String {
 		return fmt.Sprintf("%s(\"k\" + zzItoa(i) + c.str(%s))", g.tname(t), path)
 	}
+	if _, ok := t.(*types.Pointer); ok && namedStruct(t) != nil {
+		return g.symExpr(t, path, "d-1")
+	}
 	panic("gostructgen: unsupported map key " + t.String())
 }
 
@@ -185,8 +188,47 @@ func (g *structGen) eqStmt(t types.Type, a, b, path string) string {
 		return fmt.Sprintf("zzrt.Assert(len(%s) == len(%s), %s+\": length\"); for i := range %s { if i < len(%s) { %s } }", a, b, path, a, b,
 			g.eqStmt(u.Elem(), a+"[i]", b+"[i]", path+`+"."+zzItoa(i)`))
 	case *types.Map:
+		if _, ok := u.Key().(*types.Pointer); ok {
+			return fmt.Sprintf("zzrt.Assert(%s, %s+\": entries (matched by content)\")", g.sameExpr(t, a, b), path)
+		}
 		return fmt.Sprintf("zzrt.Assert(len(%s) == len(%s), %s+\": length\"); for k, va := range %s { vb, ok := %s[k]; zzrt.Assert(ok, %s+\": key lost\"); if ok { %s } }", a, b, path, a, b, path,
 			g.eqStmt(u.Elem(), "va", "vb", path+`+"[]"`))
+	}
+	panic("gostructgen: unsupported type " + t.String())
+}
+
+// sameExpr is eqStmt as a boolean expression (used to match the entries of pointer-keyed maps).
+func (g *structGen) sameExpr(t types.Type, a, b string) string {
+	switch u := t.(type) {
+	case *types.Pointer:
+		if n := namedStruct(u); n != nil {
+			g.need(n)
+			return fmt.Sprintf("zzSame_%s(%s, %s)", fn(n), a, b)
+		}
+		return fmt.Sprintf("((%s == nil) == (%s == nil) && (%s == nil || %s))", a, b, a, g.sameExpr(u.Elem(), "(*"+a+")", "(*"+b+")"))
+	case *types.Named:
+		if n := namedStruct(u); n != nil {
+			g.need(n)
+			return fmt.Sprintf("zzSame_%s(&%s, &%s)", fn(n), a, b)
+		}
+		return g.sameExpr(u.Underlying(), a, b)
+	case *types.Basic:
+		if u.Kind() == types.Float64 {
+			g.imports["math"] = "math"
+			return fmt.Sprintf("(math.Float64bits(float64(%s)) == math.Float64bits(float64(%s)))", a, b)
+		}
+		return fmt.Sprintf("(%s == %s)", a, b)
+	case *types.Slice:
+		if bb, ok := u.Elem().(*types.Basic); ok && bb.Kind() == types.Uint8 {
+			return fmt.Sprintf("(string(%s) == string(%s))", a, b)
+		}
+		return fmt.Sprintf("func() bool { x, y := %s, %s; if len(x) != len(y) { return false }; for i := range x { if !%s { return false } }; return true }()", a, b, g.sameExpr(u.Elem(), "x[i]", "y[i]"))
+	case *types.Map:
+		if _, ok := u.Key().(*types.Pointer); ok {
+			return fmt.Sprintf("func() bool { x, y := %s, %s; if len(x) != len(y) { return false }; for ka, va := range x { found := false; for kb, vb := range y { if %s && %s { found = true } }; if !found { return false } }; return true }()",
+				a, b, g.sameExpr(u.Key(), "ka", "kb"), g.sameExpr(u.Elem(), "va", "vb"))
+		}
+		return fmt.Sprintf("func() bool { x, y := %s, %s; if len(x) != len(y) { return false }; for k, va := range x { vb, ok := y[k]; if !ok || !%s { return false } }; return true }()", a, b, g.sameExpr(u.Elem(), "va", "vb"))
 	}
 	panic("gostructgen: unsupported type " + t.String())
 }
@@ -250,6 +292,15 @@ func (g *structGen) emit(n *types.Named) {
 		fmt.Fprintf(w, "\t%s\n", g.eqStmt(f.Type(), "a."+f.Name(), "b."+f.Name(), fmt.Sprintf("path+%q", "."+f.Name())))
 	}
 	fmt.Fprintf(w, "}\n\n")
+	fmt.Fprintf(w, "func zzSame_%s(a, b *%s) bool {\n\tif a == nil || b == nil {\n\t\treturn a == nil && b == nil\n\t}\n", fn(n), tn)
+	for i := 0; i < st.NumFields(); i++ {
+		f := st.Field(i)
+		if !f.Exported() {
+			continue
+		}
+		fmt.Fprintf(w, "\tif !%s {\n\t\treturn false\n\t}\n", g.sameExpr(f.Type(), "a."+f.Name(), "b."+f.Name()))
+	}
+	fmt.Fprintf(w, "\treturn true\n}\n\n")
 }
 
 // genStructHarness returns Go source (package localName, at import path local) with builders
